@@ -1165,7 +1165,10 @@ def _features_or_nulls(mol: Molecules, schema: dict[str, Any]) -> pl.DataFrame:
 
 def _is_boolean_array(a: Any) -> TypeGuard[NDArray[np.bool_]]:
     if isinstance(a, pl.Series):
-        return a.dtype is pl.Boolean
+        return a.dtype == pl.Boolean
+    elif isinstance(a, list):
+        # a plain list of bools is a mask for numpy as well
+        return len(a) > 0 and all(isinstance(x, (bool, np.bool_)) for x in a)
     else:
         return getattr(a, "dtype", None) == "bool"
 
